@@ -172,6 +172,9 @@ func c14Setup(c *Ctx) {
 				return
 			}
 			p.mu.Lock()
+			if live, known := p.codecLive[obj]; known && !live {
+				p.violate(kind + "or of pool " + pool + " released twice")
+			}
 			p.codecLive[obj] = false
 			p.mu.Unlock()
 		},
@@ -247,6 +250,13 @@ func c14W1(c *Ctx, i int, r *rand.Rand, modeB bool) {
 			if len(p.raw) > 3 {
 				p.raw = p.raw[:len(p.raw)/2]
 			}
+		case 2, 3:
+			// a message that fails inside the decompressor, or inflates past the limit: the error branches that release pooled objects
+			if raw := hostileCompressedRequest(r, s, pick(r, []string{"corrupt", "bomb"}), int(s.Cfg.Limit)); raw != nil {
+				p.raw = raw
+			}
+		case 4:
+			hostileCompressedResponse(r, s.Script, pick(r, []string{"corrupt", "bomb"}), int(s.Cfg.Limit))
 		}
 		rpcs = append(rpcs, p)
 	}
